@@ -1,8 +1,10 @@
 """C07 - Key rotation never strands traffic and keeps keys fresh."""
 from ..core import Script
+from .. import nodegen
+from . import _nodecommon
 
 ID = "C07"
-SUITES = ["rot"]
+SUITES = ["rot", "node"]
 LEAN_MODULES = ["VpnCloud.Proofs.C07", "VpnCloud.Proofs.C07More"]
 THEOREMS = ["VpnCloud.Rot.rotation_sync", "VpnCloud.Rot.inv_step", "VpnCloud.Rot.inv_init",
             "VpnCloud.Rot.inv_reachable", "VpnCloud.Rot.ids_interlock", "VpnCloud.Rot.sent_ids_bounded", "VpnCloud.Rot.only_latest_matters", "VpnCloud.Rot.receive_before_send", "VpnCloud.Rot.receive_before_send_y", "VpnCloud.Rot.latest_sent", "VpnCloud.Rot.lockstep_progress", "VpnCloud.Rot.lockstep_fresh", "VpnCloud.Rot.lockstep_new_keys", "VpnCloud.Rot.lockstep_fresh_keys"]
@@ -137,6 +139,14 @@ def random_schedule(rng, steps, name, reliable_tail=True):
 
 def gen(tier, rng):
     thorough = tier == "thorough"
+    # node level: rotation as PeerCrypto::every_second drives it (cycle every 120 housekeeping calls, re-sends of unconfirmed proposals), with
+    # everything in flight lost around one rotation second: the key change is only postponed, both sealing keys are replaced afterwards
+    r = rng.fork("node")
+    yield nodegen.long_session_script(r, "node-rotation-0", 740, drop_at=(120, 121), replay_age=(2,), expect_from=360)
+    if thorough:
+        for i in range(3):
+            d = 120 * r.range(1, 4)
+            yield nodegen.long_session_script(r, "node-rotation-%d" % (i + 1), d + 620, drop_at=(d, d + 1), replay_age=(2,), expect_from=d + 240)
     maxd = 6 if thorough else 4
     for d in range(1, maxd + 1):
         for s in exhaustive(d, "rot-exh"):
@@ -145,3 +155,5 @@ def gen(tier, rng):
             yield s
     for i in range(400 if thorough else 60):
         yield random_schedule(rng, rng.range(20, 400 if thorough else 120), "rot-rand-%d" % i)
+
+obs_class, nontrivial_key = _nodecommon.with_node(obs_class, nontrivial_key)
